@@ -260,8 +260,36 @@ def parseParam (j : LJson) : Except String Param := do
   return { name := ← getStr j "name", cfg := cfg, allowNone := an, default := dflt, doc := doc,
            label := ← getStr j "label" }
 
+/-- a per-instance edit of a Parameter attribute (`obj.param.n.bounds = …`): the instance's own
+Parameter object then *is* the edited declaration -/
+def applyEdit (p : Param) (slot : String) (v : LJson) : Except String Param := do
+  let newBounds (b : Bounds) : Except String Bounds := do
+    match slot with
+    | "bounds" =>
+      match v with
+      | .null => pure { b with range := none }
+      | v =>
+        let a ← v.getArr?
+        if a.size != 2 then throw "bounds: pair expected"
+        pure { b with range := some (← parseOptNum a[0]!, ← parseOptNum a[1]!) }
+    | "inclusive_bounds" =>
+      let a ← v.getArr?
+      pure { b with incLo := ← a[0]!.getBool?, incHi := ← a[1]!.getBool? }
+    | s => throw s!"unsupported edit {s}"
+  match slot with
+  | "allow_None" =>
+    -- the attribute is assigned directly; only `True` is modelled
+    if (← v.getBool?) then pure { p with allowNone := .yes } else throw "allow_None edit: only True"
+  | _ =>
+    match p.cfg with
+    | .integer b => pure { p with cfg := .integer (← newBounds b) }
+    | .number b => pure { p with cfg := .number (← newBounds b) }
+    | .range b => pure { p with cfg := .range (← newBounds b) }
+    | _ => throw "bounds edit on a parameter without bounds"
+
 /-- the state of the case: declared parameters paired with their current values
-(class level: the effective defaults) -/
+(class level: the effective defaults).  Instance level: `edits` are applied to the instance's
+Parameter objects after construction, then the `final` values are assigned. -/
 def parseState (case : LJson) : Except String (List (Param × PyVal)) := do
   let ps ← (← getArr case "params").toList.mapM parseParam
   match ← getStr case "level" with
@@ -276,7 +304,21 @@ def parseState (case : LJson) : Except String (List (Param × PyVal)) := do
   | _ =>
     let vs ← (← getArr case "values").toList.mapM parseVal
     if vs.length != ps.length then throw "values: one per parameter expected"
-    return ps.zip vs
+    let edits ← match getOpt case "edits" with
+      | none => pure []
+      | some e => (← e.getArr?).toList.mapM fun x => do
+        let q ← x.getArr?
+        if q.size != 3 then throw "edit: triple expected"
+        pure (← q[0]!.getStr?, ← q[1]!.getStr?, q[2]!)
+    let finals ← match getOpt case "final" with
+      | none => pure []
+      | some f => parseNamed parseVal f
+    (ps.zip vs).mapM fun (p, v) => do
+      let p' ← (edits.filter (·.1 == p.name)).foldlM (fun acc (_, slot, val) => applyEdit acc slot val) p
+      let v' := match finals.find? (·.1 == p.name) with
+        | some (_, w) => w
+        | none => v
+      pure (p', v')
 
 def parseSubset (case : LJson) : Except String (Option (List String)) :=
   match getOpt case "subset" with
